@@ -7,6 +7,7 @@ static GLOBAL: vharness::alloc::CountingAlloc = vharness::alloc::CountingAlloc;
 
 fn main() {
     let args: Vec<String> = std::env::args().collect();
+    vharness::util::announce_scratch_root();
     let code = real_main(&args);
     vharness::util::cleanup_scratch_root();
     std::process::exit(code);
